@@ -656,11 +656,13 @@ inductive Lang where
   | c | cxx
   deriving DecidableEq, Repr
 
-/-- per-argument plan: for `language: c` the typemap's `c_to_cxx` is never applied -/
+/-- per-argument plan: for `language: c` the typemap's by-value `c_to_cxx` is never applied -/
 def assembleArgL (l : Lang) (d : ArgDesc) (e : Entry) : ArgPlan :=
   match l with
   | .cxx => assembleArg d e
-  | .c => assembleArg { d with conv := 0 } e
+  | .c =>
+    -- only a pointer to an enum is converted (cast to the library's pointer type in a local, fix d89e330)
+    if d.isEnum && (d.isPtr || d.isRef) then assembleArg d e else assembleArg { d with conv := 0 } e
 
 /-- the result is an enum behind a pointer / reference (wrapc: `CXX_ast.is_indirect() and
     result_typemap.name in self.enum_typemaps`) -/
@@ -860,5 +862,59 @@ def runEntry (h : Heap) (need : Bool) (w : Wrapper) (modes : List Mode) (cargs :
     (resIsPtr : Bool) (r : CxxRet) (tail : Option Nat) (fresh idtor : Nat) : CalleeView × CResult :=
   if need then runWrapper h w modes cargs resIsPtr r tail fresh idtor
   else (⟨none, directArgs h modes cargs⟩, ⟨directRet r, none⟩)
+
+/-! ## (e) template-argument components of a key, `fstatements` overrides -/
+
+/-- the node at which the greedy loop of `lookup_stmts_tree` stands after `path` -/
+def reach : Tree → List Nat → Tree
+  | t, [] => t
+  | t, p :: ps =>
+    if p = 0 then reach t ps
+    else match t.child p with
+      | none => reach t ps
+      | some t' => reach t' ps
+
+/-- clauses of a statement entry that a declaration-level `fstatements: {c: {...}}` dictionary can name -/
+inductive Clause where
+  | cxxLocal | cLocal | bufArgs | bufExtra | argDecl | argCall | pre | call | post | ret | retType | owner
+  deriving DecidableEq, Repr
+
+/-- value of a clause; scalar clauses are one-element lists of `(code, [])` -/
+abbrev ClauseVal := List (Nat × List Nat)
+
+def sc (n : Nat) : ClauseVal := [(n, [])]
+def unsc : ClauseVal → Nat
+  | (n, _) :: _ => n
+  | [] => 0
+
+def Entry.get (e : Entry) : Clause → ClauseVal
+  | .cxxLocal => sc e.cxxLocal | .cLocal => sc e.cLocal
+  | .bufArgs => e.bufArgs.map (fun n => (n, [])) | .bufExtra => e.bufExtra.map (fun n => (n, []))
+  | .argDecl => sc e.argDecl | .argCall => e.argCall | .pre => e.pre | .call => e.call | .post => e.post
+  | .ret => e.ret | .retType => sc e.retType | .owner => sc e.owner
+
+def Entry.set (e : Entry) (c : Clause) (v : ClauseVal) : Entry :=
+  match c with
+  | .cxxLocal => { e with cxxLocal := unsc v } | .cLocal => { e with cLocal := unsc v }
+  | .bufArgs => { e with bufArgs := v.map (·.1) } | .bufExtra => { e with bufExtra := v.map (·.1) }
+  | .argDecl => { e with argDecl := unsc v } | .argCall => { e with argCall := v } | .pre => { e with pre := v }
+  | .call => { e with call := v } | .post => { e with post := v } | .ret => { e with ret := v }
+  | .retType => { e with retType := unsc v } | .owner => { e with owner := unsc v }
+
+/-- `lookup_local_stmts`: the user's dictionary becomes a Scope whose parent is the looked-up entry
+    (`blk.reparent(parent)`): a clause is read from the dictionary when it names it, from the entry
+    otherwise.  `ovr`: the dictionary's items in order (a later item of the same name wins). -/
+def applyOverride (ovr : List (Clause × ClauseVal)) (e : Entry) : Entry :=
+  ovr.foldl (fun acc cv => acc.set cv.1 cv.2) e
+
+/-- what a lookup through the merged Scope returns for clause `c` -/
+def overrideGet (ovr : List (Clause × ClauseVal)) (e : Entry) (c : Clause) : ClauseVal :=
+  match (ovr.reverse.find? (fun cv => cv.1 = c)) with
+  | some cv => cv.2
+  | none => e.get c
+
+/-- `mode`: only "update" merges; any other mode leaves the looked-up entry -/
+def localStmts (present update : Bool) (ovr : List (Clause × ClauseVal)) (e : Entry) : Entry :=
+  if present && update then applyOverride ovr e else e
 
 end Shroud.WrapC
